@@ -413,6 +413,9 @@ def run(ctx) -> None:
         rep.add("C02.R5", f"executor[{key}]:materialise-guard", ok, (d.get(True) or d.get(False))[1], f"both runners materialise a generator result under '{d[False][0]}'" if ok else f"runners decide differently when to materialise a result: sync '{d.get(False, ('-',))[0]}' vs async '{d.get(True, ('-',))[0]}'")
 
     # ---- R6 -------------------------------------------------------------------
+    from .c03 import check_ready_list_provenance
+
+    check_ready_list_provenance(ctx, "C02.R6")
     grn = db.func("runners._shared.helpers.get_ready_nodes")
     clo = db.closure([grn], property_reads=False)
     helpers_funcs = [f for f in clo if f.module.name.endswith("runners._shared.helpers")]
